@@ -71,6 +71,12 @@ def streams(tier, rng, P, only=None, cases=None):
         n = 3000 if big else 400
         for i in range(n):
             blocks = gen_blocks(rng)
+            if rng.random() < 0.35:
+                # an octave-once mark (` or ") directly before the last chord or note of a block: the next block (another track) must not feel it
+                j = rng.randrange(len(blocks)); tr_, body_ = blocks[j]
+                nt_ = lambda: ('note', rng.choice("cdefgab"), 0, False, None, None, None, None, None)
+                last = ('chord', [nt_() for _ in range(rng.randrange(2, 4))], None, None, None) if rng.random() < 0.6 else nt_()
+                blocks[j] = (tr_, body_ + [('raw', rng.choice(["`", '"'])), last])
             k = rng.choice(sorted(set(b[0] for b in blocks)))
             p1 = to_prog(blocks); p2 = to_prog([b for b in blocks if b[0] == k])
             s1_, s2_ = mml.pr(p1), mml.pr(p2)
